@@ -386,8 +386,9 @@ func Run() (res Result) {
 			S.mu.Unlock()
 			return
 		}
+		npk := len(pk) // parked threads that could run: parking the default thread as well hands control back to the oldest of them
 		if len(en) == 0 && len(pk) > 0 {
-			en = pk // parked threads resume when nothing else can run
+			en, npk = pk, 0 // parked threads resume when nothing else can run
 		}
 		if len(en) == 0 && len(qs) > 0 {
 			en = qs
@@ -438,7 +439,7 @@ func Run() (res Result) {
 			delayIdx = len(names)
 			names = append(names, "DELAY")
 		}
-		if len(en) > 1 && S.Park && !en[0].parked {
+		if len(en)+npk > 1 && S.Park && !en[0].parked {
 			parkIdx = len(names)
 			names = append(names, "PARK")
 		}
